@@ -521,6 +521,33 @@ func (e *Exec) loopInvariants(fr *Frame, h *ssa.BasicBlock, phis []*ssa.Phi, ini
 			}
 		}
 	}
+	// pairs of integer phis: sum / difference is constant
+	var ints []*ssa.Phi
+	for _, phi := range phis {
+		if _, ok := intInfoOf(phi.Type()); ok {
+			if _, ok := initVals[phi].(*Term); ok {
+				ints = append(ints, phi)
+			}
+		}
+	}
+	if len(ints) <= 4 {
+		for i := 0; i < len(ints); i++ {
+			for j := i + 1; j < len(ints); j++ {
+				p, q := ints[i], ints[j]
+				ip, iq := initVals[p].(*Term), initVals[q].(*Term)
+				pn, qn := p.Comment, q.Comment
+				if pn == "" || qn == "" {
+					continue
+				}
+				add(pn+"+"+qn+"==init", true, func(v map[*ssa.Phi]Value, st *State) *Term {
+					return Eq(Add(v[p].(*Term), v[q].(*Term)), Add(ip, iq))
+				})
+				add(pn+"-"+qn+"==init", true, func(v map[*ssa.Phi]Value, st *State) *Term {
+					return Eq(Sub(v[p].(*Term), v[q].(*Term)), Sub(ip, iq))
+				})
+			}
+		}
+	}
 	e.frameCandidates(fr, h, phis, initVals, body, pre, ms, add)
 	e.contractLoopInvs(fr, h, li, phis, c, add)
 	return li
